@@ -397,6 +397,9 @@ func negatives(g *gen.Gen) []Req {
 		Req{URI: "/loc/rules/add", Params: map[string]interface{}{"location": "plain", "rule": map[string]interface{}{"when": map[string]interface{}{"pattern": map[string]interface{}{"e": "x"}}, "action": map[string]interface{}{"code": "1"}}, "id": 5.0}, Neg: "typed:id is a number"},
 		Req{URI: "/loc/facts/search", Params: map[string]interface{}{"location": 7.0, "pattern": map[string]interface{}{"a": "?x"}}, Neg: "typed:location is a number"},
 		Req{URI: "/loc/facts/search", Params: map[string]interface{}{"location": "plain", "pattern": map[string]interface{}{"a": "?x"}, "inherited": 3.0}, Neg: "typed:inherited is a number"},
+		Req{URI: "/loc/facts/add", Params: map[string]interface{}{"location": "plain", "fact": ""}, Neg: "the fact parameter is empty"},
+		Req{URI: "/loc/facts/search", Params: map[string]interface{}{"location": "plain", "pattern": ""}, Neg: "the pattern parameter is empty"},
+		Req{URI: "/loc/events/ingest", Params: map[string]interface{}{"location": "plain", "event": ""}, Neg: "the event parameter is empty"},
 		Req{URI: "/loc/nowhere", Params: map[string]interface{}{"location": "plain"}, Neg: "unknown URI"},
 		Req{URI: "/loc/rules/list", RawURI: 5.0, Params: map[string]interface{}{"location": "plain"}, Neg: "typed-uri:the uri is a number"},
 		Req{URI: "/loc/rules/list", RawURI: map[string]interface{}{"a": "/api/loc/rules/list"}, Params: map[string]interface{}{"location": "plain"}, Neg: "typed-uri:the uri is a map"},
